@@ -907,6 +907,11 @@ impl<'a> Ev<'a> {
                 }
                 self.match_seq(st, sub.to_vec(), args.clone())
             }
+            // a tuple struct of the crate named in a pattern (`TemplateOf(args)`): not a variant, always matches
+            Val::Sym { path, .. } if segs.len() == 1 && self.ix.structs.contains_key(&var) && !self.ix.enums.values().any(|e| e.variants.iter().any(|x| *x == var)) => {
+                let vals: Vec<Val> = (0..sub.len()).map(|i| Val::Sym { ty: self.ix.structs.get(&var).and_then(|sd| sd.fields.get(i)).map(|(_, t)| Ty::from_syn(t)).unwrap_or(Ty::Unknown), path: format!("{path}.{i}") }).collect();
+                self.match_seq(st, sub.to_vec(), vals)
+            }
             Val::Sym { ty, path } => {
                 // symbolic Option / Result / crate enum
                 let optlike = ty.name() == Some("Option") || (*ty == Ty::Unknown && (var == "Some" || var == "None"));
@@ -2219,7 +2224,10 @@ impl<'a> Ev<'a> {
             }
             _ => {
                 if matches!(name, "insert" | "push" | "extend" | "retain" | "remove" | "push_str" | "clear" | "truncate" | "pop" | "sort" | "dedup" | "reverse" | "advance_to") || name.starts_with("visit_") {
-                    st.events.push(Event::Note(format!("mutcall {}.{name}({})", rv.short().chars().take(80).collect::<String>(), args.iter().map(|a| a.short().chars().take(80).collect::<String>()).collect::<Vec<_>>().join(", "))));
+                    // the symbolic roots the arguments are computed from survive the shortening of the text
+                    let roots = std::cell::RefCell::new(std::collections::BTreeSet::new());
+                    for a in &args { a.any(&|y| { if let Val::Sym { path, .. } = y { roots.borrow_mut().insert(path.split(|c: char| c == '.' || c == '[').next().unwrap_or("").to_string()); } false }); }
+                    st.events.push(Event::Note(format!("mutcall {}.{name}({}) roots={}", rv.short().chars().take(80).collect::<String>(), args.iter().map(|a| a.short().chars().take(80).collect::<String>()).collect::<Vec<_>>().join(", "), roots.into_inner().into_iter().collect::<Vec<_>>().join(","))));
                 }
                 let mut deps = vec![rv.clone()];
                 deps.extend(args);
